@@ -2,6 +2,7 @@ package command
 
 import (
 	"context"
+	"strings"
 
 	storageerrors "github.com/formancehq/ledger/internal/storage/sqlutils"
 
@@ -76,6 +77,8 @@ func (e *executionContext) run(ctx context.Context, executor func(e *executionCo
 }
 
 func newExecutionContext(commander *Commander, parameters Parameters) *executionContext {
+	// the key is reserved, looked up and recorded in the form in which the log stores it (see ledger.Log.WithIdempotencyKey)
+	parameters.IdempotencyKey = strings.ToValidUTF8(parameters.IdempotencyKey, "\uFFFD")
 	return &executionContext{
 		commander:  commander,
 		parameters: parameters,
